@@ -31,11 +31,17 @@ func VX_C04_table() {
 	n, conc := vx.ParamInt("n"), vx.ParamInt("conc")
 	hmode := vx.ParamStr("hash")
 	keys := vxKeys{k: make([]int, n), h: make([]uint64, n)}
+	stride := 1
+	if vx.HasParam("stride") {
+		// stride 8: all keys start in one slot of the 8-slot table (one long probe chain), two slots after growth;
+		// stride 16: one chain before and after growth
+		stride = vx.ParamInt("stride")
+	}
 	for r := 0; r < n; r++ {
 		if r < conc {
-			keys.k[r] = 8 + r // distinct, bit 3 set: the start slot differs between 8 and 16 slots
+			keys.k[r] = 8 + r*stride // distinct, bit 3 set: the start slot differs between 8 and 16 slots
 		} else {
-			keys.k[r] = vx.IntN(8, 8+conc)
+			keys.k[r] = 8 + stride*vx.IntN(0, conc)
 		}
 		switch hmode {
 		case "ident":
